@@ -39,6 +39,8 @@ def sources():
         ("own_schemas", os.path.join(core.REPO, "xsdata", "schemas"), False, 1),
         ("cycle", os.path.join(core.VERIF, "sim", "c12", "schemas", "cycle"), False, 4),
         ("mixed", os.path.join(core.VERIF, "sim", "c12", "schemas", "mixed"), False, 3),
+        ("samename", os.path.join(core.VERIF, "sim", "c12", "schemas", "samename"), False, 4),
+        ("samename_ledger", os.path.join(core.VERIF, "sim", "c12", "schemas", "samename", "ledger.xsd"), False, 2),
         ("harness_all", os.path.join(core.VERIF, "sim", "c12", "schemas"), True, 3),
     ]
     return [c for c in cands if os.path.exists(c[1])]
